@@ -642,6 +642,8 @@ class CliStream(Stream):
             "fed the generator's description of each file; oracle from the property text" % (len(configs()), len(COMMANDS)))
 
     def cases(self, tier, rng):
+        self.config("none")  # fill the cache in this process: the command runs happen in forked children
+        cli.warm_up()
         for cname in configs():
             for cmd in COMMANDS:
                 yield {"config": cname, "cmd": cmd}
@@ -996,9 +998,360 @@ class AnnotateStream(Stream):
         return (tuple(sorted(set(case["kinds"]))), impl_out.split(" ")[-1])
 
 
+# --------------------------------------------------------------------------
+# stream 7: files and directories that vanish WHILE the tree is being walked (between the directory listing and the questions
+# the walk asks about each listed name) -- oracle only
+
+TIME_LIMIT = 20.0   # seconds for one command over a tiny project; the slowest legitimate case (1 MB lines) takes well under a second
+
+RACE_CONTENT = {
+    "good": HDR + "print(1)\n", "bare": "print(1)\n", "copyright-only": "# SPDX-FileCopyrightText: 2020 Jane\n",
+    "binary": bytes(range(256)) * 2, "empty": "",
+}
+RACE_DIRS = ["", "src", "src/pkg", "src/pkg/deep", "docs", "lib", "lib/a", "lib/a/b", "LICENSES", "subprojects/x"]
+RACE_COMMANDS = {
+    "lint-json": ["lint", "--json"], "lint": ["lint"], "lint-lines": ["lint", "--lines"], "spdx": ["spdx"],
+    "lint-file": None,  # + every generated file
+    "annotate-r": ["annotate", "-c", "Joe Bloggs", "-l", "MIT", "--recursive", "--skip-unrecognised", "."],
+    "download-all": ["download", "--all"],
+}
+
+
+def race_case(rng, cmd):
+    dirs = [""] + rng.sample(RACE_DIRS[1:], rng.randint(1, 4))
+    files = {}
+    kinds = sorted(RACE_CONTENT)
+    for d in dirs:
+        for i in range(rng.randint(1 if d else 2, 4)):
+            k = rng.choice(kinds) if rng.random() < 0.5 else "good"
+            files["%s%s_%d.py" % (d + "/" if d else "", k.replace("-", "_"), i)] = k
+    config = rng.choice(["none", "none", "toml", "nested-toml", "dep5"])
+    all_dirs = set()
+    for f in files:
+        d = os.path.dirname(f)
+        while d:
+            all_dirs.add(d)
+            d = os.path.dirname(d)
+    all_dirs = sorted(all_dirs)
+    hook = rng.choice(["listing", "question", "question"])
+    rels = sorted(files)
+    if hook == "question":
+        trigger = rng.choice(rels + all_dirs)
+        sibs = [r for r in rels + all_dirs if os.path.dirname(r) == os.path.dirname(trigger) and r != trigger]
+        pool = sibs * 3 + rels + all_dirs
+    else:
+        trigger = None
+        pool = rels + all_dirs
+    victims = sorted({rng.choice(pool) for _ in range(rng.randint(1, 4))} - {trigger})
+    if not victims:
+        victims = [r for r in rels if r != trigger][:1]
+    # a command walks the tree more than once (looking for REUSE.toml files when the project is loaded, then for the covered
+    # files): the race happens in the nth walk / at the nth question about the trigger
+    return {"files": files, "config": config, "hook": hook, "trigger": trigger, "victims": victims, "cmd": cmd, "nth": rng.choice([1, 2, 2, 3])}
+
+
+class WalkRaceStream(Stream):
+    name = "walkrace"
+    rule = ("seeded trees (2-5 directories, nested, 3-16 files, with none / REUSE.toml / nested REUSE.toml / dep5) from which 1-4 files "
+            "and directories vanish WHILE reuse walks them: either as soon as their directory has been listed (os.walk hands out names "
+            "that no longer exist) or at a question the walk asks its VCS strategy about a chosen sibling, in the first, second or third walk of the command (project loading looks for REUSE.toml files, then the covered files are collected) (quick 105 / thorough "
+            "1400 runs), through lint, lint --json, lint --lines, lint-file, spdx, annotate --recursive, download --all; oracle only: no "
+            "traceback, exit status 0 or 1 (the configuration is valid, so never a usage error), and with lint --json every file that did not vanish is still reported (report or "
+            "read error, not both), a vanished one is a read error or absent")
+
+    def cases(self, tier, rng):
+        cli.warm_up()
+        n = 200 if tier == "thorough" else 15
+        for cmd in sorted(RACE_COMMANDS):
+            for _ in range(n):
+                yield race_case(rng, cmd)
+
+    def impl(self, case):
+        import shutil
+        import reuse.vcs as rv
+
+        files = case["files"]
+        victims = list(case["victims"])
+        with cli.scratch("rv-c16w-") as root, no_network():
+            tree = {"LICENSES/MIT.txt": "MIT text\n"}
+            for rel, k in files.items():
+                tree[rel] = RACE_CONTENT[k]
+            if case["config"] in ("toml", "nested-toml"):
+                tree[TOML_REL] = CLI_TOML_OK
+            if case["config"] == "nested-toml":
+                tree[self.nested_toml_dir(case) + "/REUSE.toml"] = CLI_TOML_OK
+            elif case["config"] == "dep5":
+                tree[DEP5_REL] = CLI_DEP5_OK
+            cli.write_tree(root, tree)
+            real_root = os.path.realpath(root)
+            gone = []
+
+            def remove(rel):
+                p = os.path.join(real_root, rel)
+                if os.path.isdir(p) and not os.path.islink(p):
+                    shutil.rmtree(p, ignore_errors=True)
+                    gone.append(rel)
+                elif os.path.lexists(p):
+                    os.unlink(p)
+                    gone.append(rel)
+
+            orig_walk, orig_ignored = os.walk, rv.VCSStrategyNone.is_ignored
+
+            count = {"walks": 0, "questions": 0}
+            nth = case.get("nth", 1)
+
+            def walk(top, *a, **kw):
+                count["walks"] += 1
+                mine = count["walks"] == nth
+                for dp, dn, fn in orig_walk(top, *a, **kw):
+                    rel_dir = os.path.relpath(os.path.realpath(dp), real_root)
+                    for v in victims:
+                        if mine and os.path.dirname(v) == ("" if rel_dir == "." else rel_dir):
+                            remove(v)  # listed a moment ago, gone before anybody looks at it
+                    yield dp, dn, fn
+
+            def is_ignored(self_, path):
+                rel = os.path.relpath(os.path.realpath(os.path.join(real_root, str(path))), real_root)
+                if rel == case["trigger"]:
+                    count["questions"] += 1
+                    if count["questions"] == nth:
+                        for v in victims:
+                            remove(v)
+                return orig_ignored(self_, path)
+
+            args = RACE_COMMANDS[case["cmd"]] or ["lint-file"] + sorted(files)
+            if case["hook"] == "listing":
+                os.walk = walk
+            else:
+                rv.VCSStrategyNone.is_ignored = is_ignored
+            try:
+                code, out, exc = cli.run_cli((["--no-multiprocessing"] if case["cmd"] != "annotate-r" else []) + args, root)
+            finally:
+                os.walk, rv.VCSStrategyNone.is_ignored = orig_walk, orig_ignored
+            if exc is not None:
+                return "traceback:%s:%s" % (type(exc).__name__, str(exc).replace(real_root, "<root>")[:100])
+            res = "exit:%s gone:%s" % (code, enc_list(sorted(set(gone))))
+            if code == 2:
+                msg = [l for l in out.splitlines() if l.startswith("Error:")]
+                return res + " usage:" + enc((msg[0] if msg else out[-120:]).replace(real_root, "<root>")[:160])
+            if case["cmd"] == "lint-json":
+                try:
+                    start = 0 if out.startswith("{\n") else out.index("\n{\n") + 1
+                    rep = json.JSONDecoder().raw_decode(out[start:])[0]
+                except Exception as e:  # noqa
+                    return "badjson:%s" % type(e).__name__
+                re_ = sorted(os.path.relpath(p, real_root) if os.path.isabs(p) else p for p in rep["non_compliant"]["read_errors"])
+                reps = sorted(f["path"] for f in rep["files"])
+                res += " RE %s REP %s" % (enc_list(re_), enc_list(reps))
+            return res
+
+    @staticmethod
+    def nested_toml_dir(case):
+        return os.path.dirname(sorted(case["files"])[-1]) or "docs"
+
+    def covered(self, case):
+        """Generator ground truth: the generated files that are covered files (not empty, not below LICENSES/ or a Meson subproject)."""
+        return sorted(r for r, k in case["files"].items() if k != "empty" and not r.startswith(("LICENSES/", "subprojects/")))
+
+    def oracle(self, case, impl_out):
+        if impl_out.startswith("timeout"):
+            return "does-not-terminate: `reuse %s` did not finish within %s s" % (case["cmd"], impl_out.split(":")[1])
+        if impl_out.startswith(("traceback", "EXC", "badjson")):
+            return "traceback: `reuse %s` was aborted by %s when %s vanished during the walk" % (case["cmd"], impl_out, case["victims"])
+        m = re.fullmatch(r"exit:(-?\d+) gone:(\S+)(?: usage:(\S*))?(?: RE (\S+) REP (\S+))?", impl_out)
+        if m.group(1) not in ("0", "1", "2"):
+            return "exit-status: %s" % m.group(1)
+        gone = dec_list(m.group(2))
+        if m.group(1) == "2":
+            # the configuration is valid in every generated tree and the arguments existed when they were validated: a usage error
+            # can only be right when a REUSE.toml itself disappeared with its directory
+            if case["config"] == "nested-toml" and any(g == self.nested_toml_dir(case) or self.nested_toml_dir(case).startswith(g + "/") for g in gone):
+                return None
+            return "aborted: `reuse %s` stopped with a usage error (%s) when %s vanished during the walk" % (case["cmd"], dec(m.group(3) or ""), case["victims"])
+        if m.group(4) is None:
+            return None
+        re_, reps = set(dec_list(m.group(4))), set(dec_list(m.group(5)))
+        for rel in self.covered(case):
+            lost = any(rel == g or rel.startswith(g + "/") for g in gone)
+            if rel in re_ and rel in reps:
+                return "lost-file: %s is both a read error and a report" % rel
+            if not lost and rel not in reps:
+                return "neighbour-disturbed: %s did not vanish but is %s" % (rel, "a read error" if rel in re_ else "not reported")
+        if re_ and m.group(1) != "1":
+            return "exit-status: read errors but exit %s" % m.group(1)
+        return None
+
+    def nontrivial(self, case, impl_out):
+        return (case["cmd"], case["hook"], case.get("nth"), case["config"], impl_out.split(" ")[0], len(case["victims"]))
+
+
+# --------------------------------------------------------------------------
+# stream 8: termination -- values with long runs of blanks, tabs, comment terminators and punctuation in the middle
+
+RUN_ATOMS = [" ", "\t", " \t", "*", "-", "/", ">", "*/", "-->", "]]", "%}", "#}", "'" * 3, '"', "'", "::", "=", "=#", "|#", "*)", "--",
+             " */", " -->", "\t*/", "\"/>", "] ::"]
+TAGS = ["SPDX-FileCopyrightText:", "SPDX-License-Identifier:", "SPDX-FileContributor:", "Copyright", "©", "SPDX-SnippetCopyrightText:",
+        "Copyright (C)", "SPDX-FileCopyrightText: (c)"]
+HEADS = ["2020 Jane Doe", "MIT", "2019-2021, Example Corp.", "Jane", "", "GPL-3.0-or-later WITH", "2020"]
+TAILS = ["<jane@example.com>", "(see LICENSES)", "x", "and others", "OR 0BSD", "2021 John", "*/", "-->"]
+FRAMES = [("# ", ""), ("// ", ""), ("/* ", " */"), ("<!-- ", " -->"), (" * ", ""), ("", ""), ("{# ", " #}"), ("(* ", " *)"), ("' ", ""), ("\t", "  ")]
+
+
+def run_of(rng, lo=20, hi=200):
+    n = rng.randint(lo, hi)
+    r = rng.random()
+    if r < 0.5:
+        atom = rng.choice(RUN_ATOMS)
+        s = atom * (n // len(atom) + 1)
+    elif r < 0.8:
+        atoms = rng.sample(RUN_ATOMS, 2)
+        s = "".join(rng.choice(atoms) for _ in range(n))
+    else:
+        s = "".join(rng.choice(RUN_ATOMS) for _ in range(n))
+    return s[:n]
+
+
+def slow_line(rng):
+    tag, (pre, post) = rng.choice(TAGS), rng.choice(FRAMES)
+    value = rng.choice(HEADS) + run_of(rng) + rng.choice(TAILS)
+    if rng.random() < 0.25:
+        value += run_of(rng, 20, 80) + rng.choice(TAILS)
+    if rng.random() < 0.2:
+        pre = pre + run_of(rng, 20, 60)  # the run in front of the tag
+    return pre + tag + " " + value + post
+
+
+TERM_COMMANDS = {
+    "lint": ["lint"], "lint-json": ["lint", "--json"], "lint-lines": ["lint", "--lines"], "spdx": ["spdx"], "lint-file": None,
+    "annotate": None, "download-all": ["download", "--all"],
+}
+
+
+class TerminationStream(Stream):
+    name = "terminates"
+    rule = ("termination: projects of 1-6 files whose tag lines (SPDX-FileCopyrightText, SPDX-SnippetCopyrightText, Copyright, (c) forms, "
+            "SPDX-License-Identifier, SPDX-FileContributor, in ten comment framings, in the file or in its .license sibling, inside an "
+            "SPDX snippet, after up to 400 other lines, also as REUSE.toml / dep5 values) carry runs of 20-200 blanks, tabs, comment "
+            "terminators, `*`, `-`, `/`, `>`, quotes and mixtures IN THE MIDDLE of the value (text follows the run), through lint, lint "
+            "--json, lint --lines, lint-file, spdx, annotate, download --all (quick 84 / thorough 1400 runs); each run happens in a child "
+            "process that is killed after %g s: oracle = the command finished (else 'does not terminate'), no traceback, exit status in "
+            "{0, 1, 2}; the same time limit guards every command run of the cli, perfile, annotate and walkrace streams" % TIME_LIMIT)
+
+    def cases(self, tier, rng):
+        cli.warm_up()
+        n = 200 if tier == "thorough" else 12
+        for cmd in sorted(TERM_COMMANDS):
+            for _ in range(n):
+                files = {}
+                for i in range(rng.randint(1, 6)):
+                    lines = [slow_line(rng) for _ in range(rng.randint(1, 3))]
+                    r = rng.random()
+                    if r < 0.15:
+                        lines = ["# SPDX-SnippetBegin"] + lines + ["# SPDX-SnippetEnd"]
+                    elif r < 0.3:
+                        lines = ["x = 1"] * rng.randint(1, 400) + lines  # beyond the first lines
+                    name = "f%d.%s" % (i, rng.choice(["py", "c", "html", "txt", "jinja2", "ml", "bas"]))
+                    if rng.random() < 0.15:
+                        files[name] = "data\n"
+                        name += ".license"
+                    files[name] = "\n".join(lines) + "\n"
+                extra = rng.choice(["none", "none", "toml", "dep5"])
+                yield {"files": files, "extra": extra, "value": HEADS[0] + run_of(rng) + TAILS[0], "cmd": cmd}
+
+    MAX_TIMEOUTS = 2  # two commands had to be killed: the point is made, do not wait for the time limit again and again ("skipped")
+
+    def impl(self, case):
+        with cli.scratch("rv-c16t-") as root, no_network():
+            tree = {"LICENSES/MIT.txt": "MIT text\n"}
+            tree.update(case["files"])
+            if case["extra"] == "toml":
+                tree[TOML_REL] = doc_to_toml(_doc(V1, ["annotations", A(T((K_PATH, S("f0.*")), (K_CP, S(case["value"])), (K_LIC, S("MIT"))))]), "sections")
+            elif case["extra"] == "dep5":
+                tree[DEP5_REL] = CLI_DEP5_OK.replace("data/*", "f0.*").replace("2020 Jane", case["value"])
+            cli.write_tree(root, tree)
+            names = sorted(f for f in case["files"] if not f.endswith(".license"))
+            args = TERM_COMMANDS[case["cmd"]]
+            if case["cmd"] == "lint-file":
+                args = ["lint-file"] + names
+            elif case["cmd"] == "annotate":
+                args = ["annotate", "-c", "Joe Bloggs", "-l", "MIT", "--fallback-dot-license"] + names
+            code, out, exc = cli.run_cli((["--no-multiprocessing"] if case["cmd"] != "annotate" else []) + args, root)
+            if exc is not None:
+                return "traceback:%s:%s" % (type(exc).__name__, str(exc)[:100])
+            return "exit:%s" % code
+
+    def oracle(self, case, impl_out):
+        if impl_out.startswith("timeout"):
+            return "does-not-terminate: `reuse %s` did not finish within %s s (killed)" % (case["cmd"], impl_out.split(":")[1])
+        if impl_out.startswith(("traceback", "EXC")):
+            return "traceback: `reuse %s` ended in %s" % (case["cmd"], impl_out)
+        if impl_out == "skipped":
+            return None
+        if impl_out.split(":")[1] not in ("0", "1", "2"):
+            return "exit-status: %s" % impl_out
+        return None
+
+    def nontrivial(self, case, impl_out):
+        return (case["cmd"], case["extra"], impl_out, len(case["files"]))
+
+    def show(self, case):
+        return {"cmd": case["cmd"], "extra": case["extra"], "value": case["value"] if case["extra"] != "none" else None,
+                "files": {k: v if len(v) < 1500 else v[:700] + " ... " + v[-700:] for k, v in case["files"].items()}}
+
+
+def bounded(stream_cls):
+    """Every command run of the stream happens in a child process with the time limit: a run that does not come back is the
+    observation 'timeout:<s>' and the oracle reports it as 'does not terminate'.  The cases the stream generates are handed to
+    the children in batches (cli.run_bounded_batch); any other case (a replayed corpus case) runs in a child of its own."""
+    inner_cases, inner_impl, inner_oracle = stream_cls.cases, stream_cls.impl, stream_cls.oracle
+    BATCH = 40
+
+    def key(case):
+        return json.dumps(case, sort_keys=True, default=str)
+
+    def cases(self, tier, rng):
+        cli.warm_up()
+        self._pending = list(inner_cases(self, tier, rng))
+        self._index = {}
+        for i, c in enumerate(self._pending):
+            self._index.setdefault(key(c), i)
+        self._done = {}
+        self._kills = 0
+        return iter(self._pending)
+
+    def impl(self, case):
+        k = key(case)
+        done = getattr(self, "_done", None)
+        if done is None or k not in getattr(self, "_index", {}):
+            return cli.run_bounded(lambda: inner_impl(self, case), TIME_LIMIT)
+        if k not in done:
+            limit_kills = getattr(self, "MAX_TIMEOUTS", None)
+            i = self._index[k]
+            batch = self._pending[i:i + BATCH]
+            outs = cli.run_bounded_batch(lambda c: inner_impl(self, c), batch, TIME_LIMIT,
+                                         max_timeouts=None if limit_kills is None else max(limit_kills - self._kills, 0))
+            for c, o in zip(batch, outs):
+                done.setdefault(key(c), o)
+                self._kills += o.startswith("timeout")
+        return done[k]
+
+    def oracle(self, case, impl_out):
+        if impl_out.startswith("timeout"):
+            return "does-not-terminate: `reuse %s` did not finish within %s s (killed)" % (
+                case.get("cmd") or case.get("variant") or "annotate", impl_out.split(":")[1])
+        return inner_oracle(self, case, impl_out)
+
+    stream_cls.cases, stream_cls.impl, stream_cls.oracle = cases, impl, oracle
+    return stream_cls
+
+
+for _cls in (CliStream, PerFileStream, AnnotateStream, WalkRaceStream, TerminationStream):
+    bounded(_cls)
+
+
 PROPERTY = Property(
     pid="C16",
-    streams=[ShapeStream(), TreeStream(), BytesStream(), CliStream(), PerFileStream(), AnnotateStream()],
+    streams=[ShapeStream(), TreeStream(), BytesStream(), CliStream(), PerFileStream(), AnnotateStream(), WalkRaceStream(), TerminationStream()],
     assumptions=[
         "tomlkit, python-debian and the UTF-8 codec are oracles of the model: the outcomes 'not TOML' (TOMLKitError), 'not a dep5 file' "
         "(debian Error / ValueError) and 'not UTF-8' (UnicodeDecodeError) are enumerated inputs of Model.tomlFromFile / dep5FromFile; that "
